@@ -32,7 +32,8 @@ MIN = {'quick': {'distinct': 600,
                            'grammarinput.rcg': 300, 'cli.grammar': 60},
                  'strata': {'lex_in_grammar': 200, 'lopar refused': 50,
                             'latin-1': 100, 'binarized': 300,
-                            'cli rcg as input': 5, 'ambiguous word': 300,
+                            'cli rcg as input': 5,
+                            'cli source other than plain utf-8 export': 20, 'ambiguous word': 300,
                             'cli binarized markov': 10, 'fan-out >= 10': 30,
                             'lopar: production both continuous and '
                             'discontinuous': 10}},
@@ -320,11 +321,26 @@ def run_cli(ctx, case, rng):
     Cur.ctx, Cur.case = ctx, case
     bank, fmt, enc = case['bank'], case['fmt'], case['enc']
     lig = case.get('lig', False)
-    src = common.write(ctx.path('.export'), codec.export_encode(bank))
+    sfmt, senc = case.get('sfmt', 'export'), case.get('senc', 'utf-8')
+    text = {'export': lambda: codec.export_encode(bank),
+            'brackets': lambda: codec.brackets_encode(bank),
+            'discobrackets': lambda: codec.discobrackets_encode(bank),
+            'tigerxml': lambda: codec.tigerxml_encode(bank, encoding=senc)
+            }[sfmt]()
+    src = ctx.path('.' + sfmt + ('.gz' if case.get('sgz') else ''))
+    if case.get('sgz'):
+        import gzip
+        with gzip.open(src, 'wb') as f:
+            f.write(text.encode(senc))
+    else:
+        common.write(src, text, senc)
     prefix = ctx.path('.cli')
     gramtype = case.get('gramtype', 'treebank')
-    args = ['grammar', src, prefix, gramtype, '--src-format', 'export',
-            '--dest-format', fmt, '--dest-enc', enc, '--src-opts', 'quiet']
+    args = ['grammar', src, prefix, gramtype, '--src-format', sfmt,
+            '--src-enc', senc, '--dest-format', fmt, '--dest-enc', enc,
+            '--src-opts', 'quiet'] + case.get('sopts', [])
+    if sfmt != 'export' or senc != 'utf-8' or case.get('sgz'):
+        ctx.stratum('cli source other than plain utf-8 export')
     if lig:
         args += ['--dest-opts', 'lex_in_grammar']
     mk = case.get('markov')
@@ -446,6 +462,23 @@ def run_synthetic(ctx, rng, pool):
     ctx.case(['syn', fmt, case['grammar']], nontrivial=True)
 
 
+def _continuous(spec):
+    def rec(n):
+        if 'c' not in n:
+            return [n['n']]
+        out = []
+        for c in n['c']:
+            out += rec(c)
+        return out
+    def ok(n):
+        if 'c' not in n:
+            return True
+        ys = sorted(rec(n))
+        return ys == list(range(ys[0], ys[-1] + 1)) and all(ok(c)
+                                                            for c in n['c'])
+    return ok(spec['root'])
+
+
 def draw(rng, modes):
     fmt = rng.choice(['pmcfg', 'pmcfg', 'rcg', 'rcg', 'lopar'])
     enc = rng.choice(['utf-8', 'utf-8', 'latin-1'])
@@ -482,6 +515,15 @@ def shard(ctx):
         case = draw(rng, modes)
         case.pop('mode', None)
         case['kind'] = 'cli'
+        case['senc'] = rng.choice(['utf-8', 'utf-8', 'latin-1']) \
+            if case['enc'] == 'latin-1' else 'utf-8'
+        cont_bank = all(_continuous(s) for s in case['bank'])
+        case['sfmt'] = rng.choice(['export', 'export', 'tigerxml',
+                                   'discobrackets']
+                                  + (['brackets'] * 2 if cont_bank else []))
+        case['sgz'] = case['sfmt'] != 'tigerxml' and rng.random() < 0.15
+        if rng.random() < 0.3:
+            case['sopts'] = [rng.choice(['continuous', 'brackets_firstid:7'])]
         r = rng.random()
         if r < 0.5:
             case['gramtype'] = rng.choice(['leftright', 'optimal'])
